@@ -4,6 +4,7 @@ package verifharness
 
 import (
 	"fmt"
+	"strings"
 	"testing"
 
 	v1 "k8s.io/api/core/v1"
@@ -127,7 +128,7 @@ func TestC02(t *testing.T) {
 
 func TestC03(t *testing.T) {
 	p := &world.Profile{Name: "mintaint", MinGroups: 1, MaxGroups: 2, Auto: 2, MaxInit: 10, SmallGraces: true, Steps: 30, Stale: true,
-		Weights: with(baseWeights(), "asgEdit", 2, "cordon", 3, "taintExt", 3, "targetUtil", 10, "pinAsg", 3, "refreshFails", 2, "belowMinWithCordoned", 3, "oddTaintAtFloor", 3)}
+		Weights: with(baseWeights(), "asgEdit", 2, "cordon", 3, "taintExt", 3, "targetUtil", 10, "pinAsg", 3, "refreshFails", 2, "belowMinWithCordoned", 3, "oddTaintAtFloor", 3, "goneTaintedBelowMin", 3)}
 	col := newCollector(t, "C03", "history check; non-trivial = a scan in which the clamp binds (rate > untainted - min), or untainted < min (recovery), or min_nodes is auto-discovered; distinct by (clamp, recovery, auto, tainted-present, cordoned-present, k)")
 	historyCheck(t, &historyOpts{prop: "C03", profile: p, col: col, classify: func(w *world.World, rec *world.ScanRecord) []string {
 		var keys []string
@@ -347,9 +348,9 @@ func temptation(w *world.World, rec *world.ScanRecord, gr *world.GroupRec, n *v1
 
 func TestC09(t *testing.T) {
 	p := &world.Profile{Name: "cordon", BulkWhat: []string{"force", "force+drain", "cordon", "taint+drain"}, FaultFocus: "node-writes", MinGroups: 1, MaxGroups: 2, Fleet: 0, Auto: 1, MaxInit: 14, SmallGraces: true, Steps: 30, Stale: true,
-		Weights: with(baseWeights(), "cordon", 8, "taintExt", 5, "advance", 8, "annotate", 1, "clearNode", 2, "fault", 2, "staleWindow", 2, "leftoverNode", 2, "bulk", 3, "heartbeat", 2, "raceOnWrite", 3, "belowMinWithCordoned", 2, "cordonedTaintedThenBusy", 3)}
+		Weights: with(baseWeights(), "cordon", 8, "taintExt", 5, "advance", 8, "annotate", 1, "clearNode", 2, "fault", 2, "staleWindow", 2, "leftoverNode", 2, "bulk", 3, "heartbeat", 2, "raceOnWrite", 3, "belowMinWithCordoned", 2, "cordonedTaintedThenBusy", 3, "onlyCordonedLeft", 3)}
 	col := newCollector(t, "C09", "history check; non-trivial = an acting (unlocked, in-bounds) scan that sees a cordoned node which would otherwise have been acted on: grace-expired, force-tainted and empty, tainted under a scale-up, or oldest untainted-looking under a scale-down; distinct by (temptation, action of the scan)")
-	historyCheck(t, &historyOpts{prop: "C09", profile: p, col: col, classify: func(w *world.World, rec *world.ScanRecord) []string {
+	historyCheck(t, &historyOpts{prop: "C09", profile: p, col: col, extra: cordonedNotCounted, classify: func(w *world.World, rec *world.ScanRecord) []string {
 		var keys []string
 		for _, gr := range rec.Groups {
 			if !gr.Processed || gr.Dry || len(gr.GV.Cordoned) == 0 {
@@ -599,7 +600,7 @@ func stringIndex(s, sub string) int {
 
 func TestC20(t *testing.T) {
 	p := &world.Profile{Name: "chaos", Linger: true, OddConfig: true, DupTaints: true, MinGroups: 1, MaxGroups: 3, Dry: 1, Fleet: 1, Auto: 1, Default: 1, Starve: 1, MaxAge: 1, MaxInit: 10, SmallGraces: true, Steps: 30, Stale: true,
-		Weights: with(baseWeights(), "oddNode", 5, "oddPod", 5, "fault", 8, "taintExt", 6, "killNode", 2, "detach", 1, "asgEdit", 1, "fleetPlan", 2, "advance", 8, "gcNodes", 1, "staleWindow", 2, "zeroOut", 1, "tinyThenZero", 2, "dupNode", 2, "terminating", 2, "latency", 1, "leftoverNode", 2, "massDeleteFails", 2, "fleetFailsEverywhere", 1, "refreshFails", 1, "clonePod", 1, "replaceAndReap", 3)}
+		Weights: with(baseWeights(), "oddNode", 5, "oddPod", 5, "fault", 8, "taintExt", 6, "killNode", 2, "detach", 1, "asgEdit", 1, "fleetPlan", 2, "advance", 8, "gcNodes", 1, "staleWindow", 2, "zeroOut", 1, "tinyThenZero", 2, "dupNode", 2, "terminating", 2, "latency", 1, "leftoverNode", 2, "massDeleteFails", 2, "fleetFailsEverywhere", 1, "refreshFails", 1, "clonePod", 1, "replaceAndReap", 3, "lagLookup", 3, "onlyCordonedLeft", 1)}
 	col := newCollector(t, "C20", "chaos histories: malformed nodes/pods, absurd taint values, API and cloud failures at drawn call indices; non-trivial = a scan in which an injected failure was hit, or an odd object was part of a processed in-bounds group; distinct by (fault kinds hit, odd kinds present, outcome)")
 	historyCheck(t, &historyOpts{prop: "C20", profile: p, col: col, extra: nextScanNormal, classify: func(w *world.World, rec *world.ScanRecord) []string {
 		var keys []string
@@ -644,7 +645,7 @@ func TestC13History(t *testing.T) {
 	p := &world.Profile{Name: "gauges", MinGroups: 1, MaxGroups: 2, Auto: 1, Default: 1, MaxInit: 8, SmallGraces: true, Steps: 25, Stale: true,
 		Weights: with(baseWeights(), "addPods", 8, "targetUtil", 6, "cordon", 5, "taintExt", 4, "schedule", 2, "replacePod", 6, "resizePod", 4, "gracefulDelete", 4, "clonePod", 3, "replaceBetweenScans", 2)}
 	col := newCollector(t, "C13", "end-to-end: after every scan the request and capacity gauges are compared with exact totals computed from the view (pods by the reference attribution, allocatable over untainted uncordoned nodes) with shuffled list orders; non-trivial = a scan with init containers or overhead among the pods, or cordoned/tainted nodes next to untainted ones, in a shuffled order; distinct by (pods, classes present, shuffled)")
-	historyCheck(t, &historyOpts{prop: "C13", profile: p, col: col, classify: func(w *world.World, rec *world.ScanRecord) []string {
+	historyCheck(t, &historyOpts{prop: "C13", profile: p, col: col, extra: largerDrives, classify: func(w *world.World, rec *world.ScanRecord) []string {
 		var keys []string
 		for _, gr := range rec.Groups {
 			if !gr.Processed || gr.Dry || gr.Gauge["cpu_request"] == world.GaugeUnset {
@@ -693,7 +694,7 @@ func TestC18History(t *testing.T) {
 
 func TestC14History(t *testing.T) {
 	p := &world.Profile{Name: "attribution", MinGroups: 1, MaxGroups: 3, Auto: 1, Default: 1, MaxInit: 5, SmallGraces: true, Steps: 25,
-		Weights: map[string]int{"scan": 12, "addPods": 10, "replacePod": 6, "retargetPod": 6, "finishPods": 3, "targetUtil": 3, "schedule": 2, "launch": 2, "cordon": 1, "taintExt": 1, "advance": 1, "restart": 1, "oddPod": 3, "noProvNode": 2, "gracefulDelete": 4, "resizePod": 2, "clonePod": 4}}
+		Weights: map[string]int{"scan": 12, "addPods": 10, "replacePod": 6, "retargetPod": 6, "finishPods": 3, "targetUtil": 3, "schedule": 2, "launch": 2, "cordon": 1, "taintExt": 1, "advance": 1, "restart": 1, "oddPod": 3, "noProvNode": 2, "gracefulDelete": 4, "resizePod": 2, "clonePod": 4, "relabel": 4}}
 	col := newCollector(t, "C14", "end-to-end: along histories in which pods come, go and are re-created under the same name with a different selector / affinity / owner / static annotation, the number of pods and nodes each scan saw (count gauges set from the real filtered listers, which live across scans) equals the documented attribution; non-trivial = a scan after a same-name replacement that changed the pod's group, or with >= 2 groups sharing a label key; distinct by situation digest")
 	historyCheck(t, &historyOpts{prop: "C14", profile: p, col: col, classify: func(w *world.World, rec *world.ScanRecord) []string {
 		replaced := 0
@@ -741,6 +742,88 @@ func TestC09Big(t *testing.T)        { TestC09(t) }
 func TestC10Big(t *testing.T)        { TestC10(t) }
 func TestC19HistoryBig(t *testing.T) { TestC19History(t) }
 func TestC12Big(t *testing.T)        { TestC12(t) }
+
+// quietScan: no failure injected or armed, no restart, and no node carries the escalator key twice
+// (which of two such taints counts is not defined).
+func quietScan(rec *world.ScanRecord) bool {
+	if rec.FaultHits > 0 || len(rec.FaultsArmed) > 0 || rec.Restarted || rec.View == nil {
+		return false
+	}
+	for _, n := range rec.View.Nodes {
+		k := 0
+		for _, t := range n.Spec.Taints {
+			if t.Key == ref.TaintKey {
+				k++
+			}
+		}
+		if k > 1 {
+			return false
+		}
+	}
+	return true
+}
+
+// groupVerdicts returns the band-rule verdicts (M06) that name group g.
+func groupVerdicts(w *world.World, rec *world.ScanRecord, g int) []world.Violation {
+	var out []world.Violation
+	for _, v := range w.M06(rec) {
+		if v.Prop == "C06" && (strings.HasPrefix(v.Msg, fmt.Sprintf("group %d:", g)) || strings.HasPrefix(v.Msg, fmt.Sprintf("group %d ", g))) {
+			out = append(out, v)
+		}
+	}
+	return out
+}
+
+// cordonedNotCounted: a group whose only nodes in service are cordoned is a group without capacity:
+// with pods waiting it scales up from zero exactly as if the cordoned nodes were not there (C09:
+// cordoned nodes are excluded from what decisions are based on).
+func cordonedNotCounted(w *world.World, rec *world.ScanRecord) []world.Violation {
+	var out []world.Violation
+	if !quietScan(rec) {
+		return nil
+	}
+	for _, gr := range rec.Groups {
+		if !gr.Processed || gr.Dry || len(gr.GV.Cordoned) == 0 || len(gr.GV.Untainted) > 0 {
+			continue
+		}
+		if ex := w.Expectation(rec, gr); ex.Kind != "band" || !ex.FromZero {
+			continue
+		}
+		for _, v := range groupVerdicts(w, rec, gr.G) {
+			out = append(out, world.Violation{Prop: "C09", Sig: "C09:cordoned-nodes-counted-at-zero-capacity:" + v.Sig, Msg: fmt.Sprintf("group %d has no node in service besides %d cordoned ones and pods waiting: %s", gr.G, len(gr.GV.Cordoned), v.Msg)})
+		}
+	}
+	return out
+}
+
+// largerDrives: "the larger of the two drives decisions". In a quiet scan of a group whose cpu and
+// memory utilisation on their own fall into different bands, the band rule must hold for the larger one.
+func largerDrives(w *world.World, rec *world.ScanRecord) []world.Violation {
+	var out []world.Violation
+	if !quietScan(rec) {
+		return nil
+	}
+	for _, gr := range rec.Groups {
+		if !gr.Processed || gr.Dry || len(gr.GV.Untainted) == 0 {
+			continue
+		}
+		if ex := w.Expectation(rec, gr); ex.Kind != "band" {
+			continue
+		}
+		o := &w.Cfg.Groups[gr.G].Opts
+		L, U, S := int64(o.TaintLowerCapacityThresholdPercent), int64(o.TaintUpperCapacityThresholdPercent), int64(o.ScaleUpThresholdPercent)
+		gv := gr.GV
+		bc, _ := ref.Bands(gv.ReqCPU, gv.CapCPU, gv.ReqCPU, gv.CapCPU, L, U, S)
+		bm, _ := ref.Bands(gv.ReqMem, gv.CapMem, gv.ReqMem, gv.CapMem, L, U, S)
+		if bc == bm {
+			continue
+		}
+		for _, v := range groupVerdicts(w, rec, gr.G) {
+			out = append(out, world.Violation{Prop: "C13", Sig: "C13:decision-not-driven-by-larger:" + v.Sig, Msg: fmt.Sprintf("group %d: cpu alone gives bands %v, memory alone %v: %s", gr.G, bc, bm, v.Msg)})
+		}
+	}
+	return out
+}
 
 // nextScanNormal: "after a transient failure the next scan proceeds normally". A scan in which no
 // failure is injected must follow the band rule in every group whose objects are inside the input
